@@ -74,7 +74,7 @@ static int verif_strcmp3(const char *a, const char *b) {
 struct IN_t {
   unsigned short graph;
   // scan_globals
-  unsigned char n, name[4], kind[4];
+  unsigned char n, name[4], kind[4], incomplete[4];
 } IN;
 struct IN_t nondet_IN(void);
 
@@ -203,6 +203,10 @@ void h_scan_globals(void) {
     go[i]->is_tentative = IN.kind[i] == K_TENTATIVE;
     go[i]->init_data = IN.kind[i] == K_DEFINITION ? "\0\0\0\0" : NULL;
     go[i]->offset = i;                      // (unused for globals) carries the position in the input
+    // type: `int x[4]` or, for declarations without initializer, possibly the incomplete `int x[]` (size < 0)
+    __CPROVER_assume(IN.incomplete[i] <= 1 && (IN.kind[i] != K_DEFINITION || !IN.incomplete[i]));
+    go[i]->ty = calloc(1, sizeof(Type));
+    go[i]->ty->kind = TY_ARRAY; go[i]->ty->size = IN.incomplete[i] ? -4 : 16; go[i]->ty->array_len = IN.incomplete[i] ? -1 : 4;
     if (i > 0 && i < n) go[i - 1]->next = go[i];
     if (i < n && IN.kind[i] == K_DEFINITION) ndef[IN.name[i]]++;
     if (i < n && IN.kind[i] == K_TENTATIVE) ntent[IN.name[i]]++;
@@ -233,6 +237,14 @@ void h_scan_globals(void) {
     VASSERT(kept_def[nm] == ndef[nm], "a definition with an initializer is always kept");
     if (ndef[nm]) VASSERT(kept_tent[nm] == 0, "a tentative definition is dropped when the unit has a real definition (C11 6.9.2p2)");
     else if (ntent[nm]) VASSERT(kept_tent[nm] == 1, "tentative definitions without a real one yield exactly ONE definition (C11 6.9.2p2)");
+  }
+  // the surviving tentative definition has the complete type if any of them has (composite type, C11 6.2.7p4)
+  for (Obj *v = globals; v; v = v->next) {
+    if (!v->is_tentative) continue;
+    bool some_complete = false;
+    for (int i = 0; i < 4; i++)
+      if (i < n && IN.kind[i] == K_TENTATIVE && IN.name[i] == IN.name[v->offset] && !IN.incomplete[i]) some_complete = true;
+    if (some_complete) VASSERT(v->ty->size >= 0, "of several tentative definitions the one with the complete array type is kept");
   }
   VCOVER();
 }
